@@ -576,10 +576,10 @@ Qed.
 (** * for well-typed programs the code's evaluation is the lexical evaluation, without exception *)
 From Oal Require EvalProofs.
 Theorem typed_evaluation_is_lexical E P rs n :
-  Typing.wt_progb E P rs = true -> closed_prog P -> forallb (closed []) rs = true ->
+  Typing.wt_progb E P rs = true -> closed_prog P ->
   eval_program false P n rs = eval_program true P n rs.
 Proof.
-  intros Hwt Hcp Hrs.
+  intros Hwt Hcp. pose proof (TypingProofs.wt_resources_closed E P rs Hwt) as Hrs.
   pose proof (EvalProofs.eval_program_lexical P n rs Hcp Hrs) as Hlex.
   pose proof (TypingProofs.typed_programs_lx E P rs true n Hwt) as Hty.
   destruct (eval_program true P n rs) as [v|e|p|]; try exact Hlex.
